@@ -113,7 +113,7 @@ func callsClosure(in ssa.Instruction, fn *ssa.Function) bool {
 
 func hasCallTo(fn *ssa.Function, name string) bool { return len(CallsIn(fn, name)) > 0 }
 
-func runC06(c *Ctx) {
+func newTQModel(c *Ctx) *tqModel {
 	p := c.P
 	m := &tqModel{c: c, p: p}
 	m.noret = func(in ssa.Instruction) bool {
@@ -129,7 +129,7 @@ func runC06(c *Ctx) {
 	tq := p.Pkg("tq")
 	if tq == nil {
 		c.Missing("R0", "package tq", "package tq not found")
-		return
+		return nil
 	}
 	// Discover the anchors semantically.
 	for _, fn := range p.RepoFuncs(func(s string) bool { return s == Mod+"/tq" }) {
@@ -149,7 +149,7 @@ func runC06(c *Ctx) {
 		}
 	}
 	if m.enq == nil || m.addAd == nil || m.htr == nil || m.collect == nil {
-		return
+		return nil
 	}
 	for _, af := range m.enq.AnonFuncs {
 		if hasCallTo(af, "(*tq.retryCounter).Increment") {
@@ -158,7 +158,7 @@ func runC06(c *Ctx) {
 	}
 	if m.retryFn == nil {
 		c.Missing("R0", "retry closure", "no closure of "+FnName(m.enq)+" calls retryCounter.Increment")
-		return
+		return nil
 	}
 	for _, prm := range m.enq.Params {
 		if typeName(prm.Type()) == "tq.batch" {
@@ -167,6 +167,14 @@ func runC06(c *Ctx) {
 	}
 	if m.batchPrm == nil {
 		c.Missing("R0", "batch parameter", "no parameter of type tq.batch")
+		return nil
+	}
+	return m
+}
+
+func runC06(c *Ctx) {
+	m := newTQModel(c)
+	if m == nil {
 		return
 	}
 	m.whoMayTouchCounter()
